@@ -149,6 +149,34 @@ def run(chk, tier, seed):
                 chk.violation('format(%d, "%s") expected %r, observed %r' % (c["x"], c["spec"], c["v"], got.get("v", got)),
                               {"kind": "format", "source": 'let f0 = format(%s, "%s");\n' % (c["x"] if c["x"] >= 0 else "(%d)" % c["x"], c["spec"]), "expected": c["v"], "observed": got},
                               finding_key="format:" + c["spec"])
+    # ---- B1: float format specifiers in the fixed-point modes (rounding, grouping of the rounded digits, sign, padding)
+    ffs = [c for c in cases if c["mode"] == "fformat"]
+    if tier == "quick":
+        ffs = [c for k, c in enumerate(ffs) if (k + seed) % 3 == 0 or "," in c["spec"] or "_" in c["spec"]]
+
+    def flit(c):
+        t = repr(c["num"] / c["den"])
+        return "(-%s)" % t if c["neg"] else t
+    gj, gmeta = [], {}
+    for b in range(0, len(ffs), 80):
+        chunk = ffs[b:b + 80]
+        src = "".join('let f%d = format(%s, "%s");\n' % (k, flit(c), c["spec"]) for k, c in enumerate(chunk))
+        gj.append({"id": "ff%d" % b, "src": src, "observe": ["f%d" % k for k in range(len(chunk))]})
+        gmeta["ff%d" % b] = chunk
+    gres = vf.run_jobs(gj, "c19-ffmt")
+    for j in gj:
+        o = gres[j["id"]]
+        if vf.job_outcome(o) != "ok":
+            chk.violation("float format program: %s %s" % (vf.job_outcome(o), str(o.get("compile", {}).get("msg") or o.get("inst"))[:300]), {"kind": "format", "source": j["src"]})
+            continue
+        for k, c in enumerate(gmeta[j["id"]]):
+            chk.count(1)
+            chk.nontrivial([c["num"], c["den"], c["spec"]])
+            got = o["values"]["f%d" % k]
+            if got.get("v") != c["v"]:
+                chk.violation('format(%s, "%s") expected %r, observed %r' % (flit(c), c["spec"], c["v"], got.get("v", got)),
+                              {"kind": "format", "source": 'let f0 = format(%s, "%s");\n' % (flit(c), c["spec"]), "expected": c["v"], "observed": got},
+                              finding_key="fformat:" + c["spec"])
     # ---- B2: str format specifiers (fill / align / width in characters)
     from checks import c18
     sf = [c for c in cases if c["mode"] == "sformat"]
@@ -327,7 +355,7 @@ def run(chk, tier, seed):
                        "0..200 (random, few keys, sorted, reversed, almost sorted) against the stable reference, plus "
                        "n_smallest/n_largest/nth_*; comparator failing at every k-th comparison (violation) and on a poison "
                        "element (error) with the accounting validated by XrRuntime; non-trivial = distinct case")
-    chk.assumptions += ["float formatting with precision, Stack/Set/Mapping text, median and rank functions are not covered",
+    chk.assumptions += ["float formatting in the e/E modes and of non-dyadic values, Stack/Set/Mapping text, median and rank functions are not covered",
                         "the side that receives the odd padding character of '^' alignment and hex digit case for mode X are left open"]
 
 
